@@ -549,6 +549,7 @@ def main():
     macro_mapping(out, report, shacl, allc)
 
     out.append("end Gen\nend Shexer\n")
+    changed_s = string_fragment(report, uri, shape)
     text = apply_fallbacks("\n".join(out))
     changed = True
     if os.path.exists(OUT):
@@ -560,10 +561,47 @@ def main():
     rep_path = OUT + ".report.json"
     with open(rep_path, "w") as f:
         json.dump(report, f, indent=1, sort_keys=True)
-    print("changed" if changed else "unchanged")
+    print("changed" if (changed or changed_s) else "unchanged")
     for k, v in sorted(report.items()):
         if v.startswith('UNTRANSLATABLE'):
             print("UNTRANSLATABLE", k, v)
+
+
+def string_fragment(report, uri_consts, shape_consts):
+    """fragment S: string functions -> lean/ShexerModel/GeneratedStr.lean (namespace Shexer.GenS). A function that no longer
+    translates is simply absent, so the equivalence theorems of Props/GenStr.lean stop building: a broken obligation."""
+    import extract_str as XS
+    out = ["import ShexerModel.Base.PyOps",
+           "/-! GENERATED by harness/extract.py (fragment S) from /repo's Python AST - do not edit. -/",
+           "namespace Shexer", "namespace GenS", "open PyOps", ""]
+    assumptions = set()
+    consts = dict(uri_consts)
+    consts['STARTING_CHAR_FOR_SHAPE_NAME'] = shape_consts.get('STARTING_CHAR_FOR_SHAPE_NAME', '<missing>')
+    jobs = [("shexer/utils/uri.py", None, 'remove_corners', 'remove_corners', {'a_uri': 'str', 'raise_error_if_no_corners': 'bool'}, 'str'),
+            ("shexer/utils/uri.py", None, 'decide_literal_type', 'decide_literal_type', {'a_literal': 'str', 'base_namespace': 'optstr'}, 'str'),
+            ("shexer/utils/shapes.py", None, 'build_shapes_name_for_class_uri', 'build_shapes_name_for_class_uri',
+             {'class_uri': 'str', 'shapes_namespace': 'str'}, 'str'),
+            ("shexer/utils/translators/list_of_classes_to_shape_map.py", 'ListOfClassesToShapeMap', '_get_shape_label_for_class_uri',
+             'get_shape_label_for_class_uri', {'class_uri': 'str'}, 'str')]
+    for rel, cls, pyname, lname, types, ret in jobs:
+        try:
+            fn = find_func(parse(rel), pyname, cls)
+            XS.translate(out, report, assumptions, 'S.' + lname, fn, types, ret, consts)
+        except (Untranslatable, OSError, SyntaxError) as e:
+            out.append("def %s_untranslatable : Unit := ()  -- %s\n" % (lname, str(e)[:100]))
+            report['S.' + lname] = 'UNTRANSLATABLE: ' + str(e)[:200]
+    out.append("end GenS\nend Shexer\n")
+    text = "\n".join(out).replace("def S.", "def ")
+    report['S.assumptions'] = "; ".join(sorted(assumptions)) or "none"
+    path = os.path.join(os.path.dirname(OUT), "GeneratedStr.lean")
+    changed = True
+    if os.path.exists(path):
+        with open(path) as f:
+            changed = f.read() != text
+    if changed and '--check' not in sys.argv:
+        with open(path, "w") as f:
+            f.write(text)
+    return changed
 
 
 def macro_mapping(out, report, shacl, allc):
